@@ -23,6 +23,59 @@ impl<'s> Deref for InputSig<'s> {
     }
 }
 
+/// Name the elided lifetimes in the output of `sig`, if there are any.
+/// Returns the new lifetime parameter, which is then the lifetime of the `__impl` reference:
+/// with a `&self` receiver next to it, elision would pick the wrong input.
+pub fn name_elided_output_lifetimes(sig: &mut syn::Signature) -> Option<syn::Lifetime> {
+    use syn::visit_mut::VisitMut;
+
+    struct Namer {
+        lifetime: syn::Lifetime,
+        found: bool,
+    }
+
+    impl VisitMut for Namer {
+        fn visit_type_reference_mut(&mut self, reference: &mut syn::TypeReference) {
+            if reference.lifetime.is_none() {
+                reference.lifetime = Some(self.lifetime.clone());
+                self.found = true;
+            }
+            syn::visit_mut::visit_type_reference_mut(self, reference);
+        }
+
+        fn visit_lifetime_mut(&mut self, lifetime: &mut syn::Lifetime) {
+            if lifetime.ident == "_" {
+                *lifetime = self.lifetime.clone();
+                self.found = true;
+            }
+        }
+
+        // `fn(&T) -> &U` and `Fn(&T) -> &U` have an elision scope of their own
+        fn visit_type_bare_fn_mut(&mut self, _: &mut syn::TypeBareFn) {}
+        fn visit_parenthesized_generic_arguments_mut(
+            &mut self,
+            _: &mut syn::ParenthesizedGenericArguments,
+        ) {
+        }
+    }
+
+    let mut namer = Namer {
+        lifetime: syn::Lifetime::new("'__impl", proc_macro2::Span::call_site()),
+        found: false,
+    };
+    namer.visit_return_type_mut(&mut sig.output);
+
+    if namer.found {
+        sig.generics.params.insert(0, {
+            let lifetime = &namer.lifetime;
+            syn::parse_quote! { #lifetime }
+        });
+        Some(namer.lifetime)
+    } else {
+        None
+    }
+}
+
 pub enum ImplReceiverKind {
     // (&self, ..)
     SelfRef,
